@@ -381,3 +381,14 @@ for _fn in ("cJSONUtils_ApplyPatches", "cJSONUtils_ApplyPatchesCaseSensitive"):
       note="operations applied in document order to the same object with the promised case mode; stops at the first non-zero status and returns it; a non-array is refused with 1 and no call")
 U("cJSON_IsArray", "cjson", "harness/cJSON_IsArray.c", enforce="cJSON_IsArray", shape="U", props=["C06", "C16", "C20"], covers=2,
   note="the contract text the cJSON_Utils.c units use in place of the function (specs/c_isarray.h)")
+
+# ---------------------------------------------------------------- cJSON.c: type predicates, value getters, print_string (specs/c_preds.h)
+for _fn in ("cJSON_IsInvalid", "cJSON_IsFalse", "cJSON_IsTrue", "cJSON_IsBool", "cJSON_IsNull", "cJSON_IsNumber", "cJSON_IsString", "cJSON_IsObject", "cJSON_IsRaw"):
+    U(_fn, "cjson", "harness/c_preds.c", enforce=_fn, shape="U", props=["C06", "C12", "C20"], covers=3,
+      defs=["-DVF_PRED_ENF", "-DPD_KIND=0", "-DPD_FN=%s" % _fn, "-DPD_H=h_%s" % _fn], note="type predicate: true exactly for a non-NULL node whose low type byte is the named type")
+U("cJSON_GetStringValue", "cjson", "harness/c_preds.c", enforce="cJSON_GetStringValue", shape="U", props=["C06", "C20"], covers=3, replace=["cJSON_IsString"],
+  defs=["-DPD_KIND=1", "-DPD_H=h_cJSON_GetStringValue"], note="the value string of a String node, NULL otherwise (cJSON_IsString replaced by its proved contract)")
+U("cJSON_GetNumberValue", "cjson", "harness/c_preds.c", enforce="cJSON_GetNumberValue", shape="U", props=["C06", "C20"], covers=3, replace=["cJSON_IsNumber"],
+  defs=["-DPD_KIND=2", "-DPD_H=h_cJSON_GetNumberValue"], note="the double of a Number node, NaN otherwise (cJSON_IsNumber replaced by its proved contract)")
+U("print_string", "cjson", "harness/c_preds.c", enforce="print_string", shape="U", props=["C05", "C04", "C20"], covers=3, replace=["print_string_ptr"],
+  defs=["-DPD_KIND=3", "-DPD_H=h_print_string"], note="forwards the node's value string and the buffer to print_string_ptr (logging view) and returns its answer")
